@@ -20,13 +20,14 @@ EXTENDS TraceLib, Integers, FiniteSets
 
 CONSTANTS Mode, SnapC, DefC, ChainC, Head0C, KnownC
 
-VARIABLES l, ghost, nodeop, lock, body, head, topo, marker, pc, complete, up, broken, crashes, fresh, startedInTopo,
+VARIABLES l, ghost, nodeop, lock, body, head, refsOK, topo, marker, pc, abort, tries, complete, up, broken, crashes, fresh, startedInTopo,
           ord    \* [last, ok]: topology position of the last snapshot write and whether commit order = position order so far
 
 N == INSTANCE Node WITH Snap <- SnapC, Def <- DefC, Chain <- ChainC, Head0 <- Head0C,
-                        MaxCrash <- 1000, Known <- KnownC
+                        MaxCrash <- 1000, MaxTries <- 1000, Known <- KnownC
 
-D(c, k, nr, r, af) == [chain |-> c, kind |-> k, newRound |-> nr, round |-> r, after |-> af]
+D(c, k, nr, r, af) == [chain |-> c, kind |-> k, newRound |-> nr, round |-> r, after |-> af, closes |-> {}, ext |-> <<"-", 0>>]
+DX(c, k, nr, r, af, cl, ex) == [chain |-> c, kind |-> k, newRound |-> nr, round |-> r, after |-> af, closes |-> cl, ext |-> ex]
 SnapP2 == {"X", "Y"}
 DefP2  == [s \in SnapP2 |-> CASE s = "X" -> D("A", "pledge", FALSE, 1, {})
                               [] s = "Y" -> D("B", "deposit", FALSE, 1, {})]
@@ -38,7 +39,7 @@ DefP  == [s \in SnapP |-> CASE s = "X" -> D("A", "pledge", FALSE, 1, {})
                             [] s = "Z" -> D("C", "deposit", FALSE, 1, {})]
 SnapQ == {"W", "X", "Y"}
 DefQ  == [s \in SnapQ |-> CASE s = "W" -> D("A", "deposit", FALSE, 1, {})
-                            [] s = "X" -> D("A", "pledge", TRUE, 2, {"W"})
+                            [] s = "X" -> DX("A", "pledge", TRUE, 2, {"W"}, {"W"}, <<"-", 0>>)
                             [] s = "Y" -> D("B", "deposit", FALSE, 1, {})]
 SnapM == {"X", "Y"}
 DefM  == [s \in SnapM |-> CASE s = "X" -> D("A", "mint", FALSE, 1, {})
@@ -48,9 +49,18 @@ DefA  == [s \in SnapA |-> CASE s = "X" -> D("N", "accept", FALSE, 0, {})
                             [] s = "Y" -> D("B", "deposit", FALSE, 1, {})]
 ChainA == {"N", "B"}
 HeadA  == [c \in ChainA |-> IF c = "N" THEN -1 ELSE 1]
+SnapO == {"W", "V", "X"}
+DefO  == [s \in SnapO |-> CASE s = "W" -> D("A", "deposit", FALSE, 1, {})
+                            [] s = "V" -> D("A", "deposit", FALSE, 1, {})
+                            [] s = "X" -> DX("A", "deposit", TRUE, 2, {}, {"W", "V"}, <<"-", 0>>)]
+SnapU == {"W", "X", "Y", "Z"}
+DefU  == [s \in SnapU |-> CASE s = "W" -> D("A", "deposit", FALSE, 1, {})
+                            [] s = "Y" -> D("B", "deposit", FALSE, 1, {})
+                            [] s = "X" -> DX("A", "deposit", TRUE, 2, {"W"}, {"W"}, <<"B", 1>>)
+                            [] s = "Z" -> DX("B", "deposit", TRUE, 2, {"Y"}, {"Y"}, <<"-", 0>>)]
 SnapT == {"W", "X", "Y"}
 DefT  == [s \in SnapT |-> CASE s = "W" -> D("A", "deposit", FALSE, 1, {})
-                            [] s = "X" -> D("A", "transfer", TRUE, 2, {"W"})
+                            [] s = "X" -> DX("A", "transfer", TRUE, 2, {"W"}, {"W"}, <<"-", 0>>)
                             [] s = "Y" -> D("B", "deposit", FALSE, 1, {})]
 ChainT == {"A", "B", "C"}
 HeadT  == [c \in ChainT |-> 1]
@@ -59,7 +69,7 @@ KnownNone == {}
 Known21 == {"C21-1"}
 Known22 == {"C22-1"}
 
-nvars == <<ghost, nodeop, lock, body, head, topo, marker, pc, complete, up, broken, crashes, fresh, startedInTopo>>
+nvars == <<ghost, nodeop, lock, body, head, refsOK, topo, marker, pc, abort, tries, complete, up, broken, crashes, fresh, startedInTopo>>
 
 Init == l = 1 /\ N!Init /\ ord = [last |-> 0, ok |-> TRUE]
 
@@ -70,6 +80,7 @@ Reset ==
     /\ IsEvent("Reset")
     /\ ghost' = {} /\ nodeop' = {} /\ lock' = {} /\ body' = {}
     /\ head' = Head0C /\ topo' = <<>> /\ marker' = "G"
+    /\ refsOK' = [c \in ChainC |-> TRUE] /\ abort' = {} /\ tries' = [s \in SnapC |-> 0]
     /\ pc' = [s \in SnapC |-> 0] /\ complete' = {}
     /\ up' = TRUE /\ broken' = FALSE /\ crashes' = 0 /\ fresh' = FALSE /\ startedInTopo' = {}
     /\ ord' = [last |-> 0, ok |-> TRUE]
